@@ -188,6 +188,32 @@ func c13Expect(condActive []bool, newCond []bool, ruleActive *bool) []c13Pub {
 	return exp
 }
 
+// c13Settle keeps, per condition, only the last "active" publication of a batch
+// and drops it when it equals the state the condition had before the batch.
+func c13Settle(pubs []c13Pub, prev []bool) []c13Pub {
+	last := map[string]int{}
+	for i, p := range pubs {
+		if strings.HasPrefix(p.subject, "p.cond") && p.typ == data.PointTypeActive {
+			last[p.subject] = i
+		}
+	}
+	var out []c13Pub
+	for i, p := range pubs {
+		if strings.HasPrefix(p.subject, "p.cond") && p.typ == data.PointTypeActive {
+			if last[p.subject] != i {
+				continue
+			}
+			var idx int
+			fmt.Sscanf(p.subject, "p.cond%d", &idx)
+			if idx < len(prev) && (p.value == 1) == prev[idx] {
+				continue
+			}
+		}
+		out = append(out, p)
+	}
+	return out
+}
+
 func c13Class(c client.Condition) string {
 	if c.ConditionType == data.PointValueSchedule {
 		return "schedule"
@@ -281,8 +307,12 @@ func c13PointsBody(t *testing.T, nBatches int, twoPoint bool) mc.Body {
 						}
 					}
 				}
+				prevCond := append([]bool{}, condActive...)
 				exp := c13Expect(condActive, newCond, &ruleActive)
-				got, want := sortedPubs(g.pubs), sortedPubs(exp)
+				// a condition may flip forth and back while the points of one batch are processed: what counts
+				// is the state after the batch, so transient condition publications are reduced to the last one
+				// (and dropped if that restates the state before the batch)
+				got, want := sortedPubs(c13Settle(g.pubs, prevCond)), sortedPubs(exp)
 				if strings.Join(got, "\n") != strings.Join(want, "\n") {
 					cls := c13Class(cs[0])
 					if len(cs) > 1 {
@@ -417,10 +447,12 @@ func TestC13(t *testing.T) {
 		r.Explore(mc.Config{Name: fmt.Sprintf("point-conditions-b%d", nb), Serial: true, SplitDepth: 2,
 			Rule: fmt.Sprintf("rule configurations: each of 72 single point conditions (number > < = !=, on/off, text = != contains; filters by node/type/key) and all ordered pairs over a reduced set, with one set-value action and one inactive action x all sequences of %d single-point batches over a 64-point alphabet (2 nodes x 2 types x 2 keys x values {4,5,6,0,1} / texts {ab,xaby,a}); after every batch everything the rule published is compared with a reference interpreter (condition active points, rule active point, action set-value with the rule as origin, action/inactive-action active points, nothing when nothing changes)", nb)},
 			c13PointsBody(t, nb, false))
+		nb2 := 1
 		if thorough() {
-			r.Explore(mc.Config{Name: "point-conditions-two-point-batches", Serial: true, SplitDepth: 2,
-				Rule: "same rule configurations x 2 batches of 1 or 2 points (latest matching point of a batch decides)"}, c13PointsBody(t, 2, true))
+			nb2 = 2
 		}
+		r.Explore(mc.Config{Name: fmt.Sprintf("point-conditions-two-point-batches-b%d", nb2), Serial: true, SplitDepth: 2,
+			Rule: fmt.Sprintf("same rule configurations x %d batch(es) of 1 or 2 points from one node (all ordered pairs of the 64-point alphabet): the latest matching point of a batch decides, whatever the earlier ones did", nb2)}, c13PointsBody(t, nb2, true))
 		r.Explore(mc.Config{Name: fmt.Sprintf("schedule-conditions-s%d", steps), Serial: true, SplitDepth: 3,
 			Rule: fmt.Sprintf("6 schedule windows around the (virtual) clock start 2000-01-01T00:00:00Z incl. wrap over midnight and start=end, alone or AND a number condition x all sequences of %d operations over {advance 9 s, 10 s, 25 s, 60 s, 61 s, point 4, point 6}; after every operation the publications are compared with the interval model evaluated at each 10 s tick", steps)},
 			c13SchedBody(t, steps))
@@ -432,7 +464,8 @@ func TestC13(t *testing.T) {
 func init() {
 	bodies["C13/point-conditions-b2"] = func(t *testing.T) mc.Body { return c13PointsBody(t, 2, false) }
 	bodies["C13/point-conditions-b3"] = func(t *testing.T) mc.Body { return c13PointsBody(t, 3, false) }
-	bodies["C13/point-conditions-two-point-batches"] = func(t *testing.T) mc.Body { return c13PointsBody(t, 2, true) }
+	bodies["C13/point-conditions-two-point-batches-b1"] = func(t *testing.T) mc.Body { return c13PointsBody(t, 1, true) }
+	bodies["C13/point-conditions-two-point-batches-b2"] = func(t *testing.T) mc.Body { return c13PointsBody(t, 2, true) }
 	bodies["C13/schedule-conditions-s4"] = func(t *testing.T) mc.Body { return c13SchedBody(t, 4) }
 	bodies["C13/schedule-conditions-s6"] = func(t *testing.T) mc.Body { return c13SchedBody(t, 6) }
 }
